@@ -263,7 +263,7 @@ def determinism_scan(kit):
     """calls, in functions reachable from syntax_to_semantic (MIR call graph over the repository's crates), that iterate a
     hash map or read ambient state"""
     prog = kit.prog
-    bad_re = re.compile(r"HashMap<.*>>::(iter|iter_mut|keys|values|values_mut|drain|into_iter|into_keys|into_values|retain)\b|<&?(mut )?(std::collections::)?HashMap<.*> as IntoIterator>|RandomState::new|SystemTime::|Instant::now|std::env::|thread_rng|getrandom|std::process::id|Atomic[A-Z]\w*::|thread_local")
+    bad_re = re.compile(r"Hash(Map|Set)(<.*>)?>?::(<.*>::)?(iter|iter_mut|keys|values|values_mut|drain|into_iter|into_keys|into_values|retain|difference|union|intersection|symmetric_difference)\b|<&?(mut )?(std::collections::|hashbrown::)?Hash(Map|Set)<.*> as IntoIterator>|RandomState::new|SystemTime::|Instant::now|std::env::|thread_rng|getrandom|std::process::id|Atomic[A-Z]\w*::|thread_local")
     call_re = re.compile(r"^(?:[^=]*= )?(.*?)\((?:.*)\) -> (?:\[return|unwind|bb)")
     seen = set(); todo = [kit.f_sts]; hits = []
     while todo:
